@@ -146,6 +146,82 @@ fn check_mapping(m: &Mapping<NameId, u32>, model: &BTreeMap<u32, u32>, ctx: &str
             detail: format!("{ctx}: iter() yields {got:?}, reference map holds {want:?}"),
         });
     }
+    // the same pairs whichever way the iterator is consumed: advanced by hand and then drained
+    // through fold (for_each / count / collect into a map), nth, last; size_hint must bracket
+    // what is left; once exhausted it stays exhausted
+    let n = want.len();
+    for k in [0usize, 1, n / 2, n.saturating_sub(1), n] {
+        if k > n {
+            continue;
+        }
+        let mut it = m.iter();
+        let mut head = vec![];
+        for _ in 0..k {
+            match it.next() {
+                Some((id, v)) => head.push((id.0, *v)),
+                None => break,
+            }
+        }
+        let (lo, hi) = it.size_hint();
+        let left = n - head.len().min(n);
+        if lo > left || hi.is_some_and(|h| h < left) {
+            return Err(Failure {
+                signature: "C19:size-hint".into(),
+                detail: format!("{ctx}: after {k} next() calls size_hint() = ({lo}, {hi:?}) but {left} pairs are left"),
+            });
+        }
+        let mut tail = vec![];
+        match k % 3 {
+            0 => it.for_each(|(id, v)| tail.push((id.0, *v))),
+            1 => {
+                let map: std::collections::BTreeMap<u32, u32> = it.map(|(id, v)| (id.0, *v)).collect();
+                tail = map.into_iter().collect();
+            }
+            _ => {
+                let mut twin = m.iter();
+                for _ in 0..head.len() {
+                    twin.next();
+                }
+                let c = twin.count();
+                tail = it.fold(vec![], |mut acc, (id, v)| {
+                    acc.push((id.0, *v));
+                    acc
+                });
+                if c != tail.len() {
+                    return Err(Failure {
+                        signature: "C19:iter-mismatch".into(),
+                        detail: format!("{ctx}: count() = {c} after {k} next() calls, but {} pairs follow", tail.len()),
+                    });
+                }
+            }
+        }
+        head.extend(tail);
+        if head != want {
+            return Err(Failure {
+                signature: "C19:iter-mismatch".into(),
+                detail: format!("{ctx}: {k} next() calls followed by a fold over the rest yield {head:?}, reference map holds {want:?}"),
+            });
+        }
+    }
+    if n > 0 {
+        let k = n / 2;
+        let nth = m.iter().nth(k).map(|(id, v)| (id.0, *v));
+        let last = m.iter().last().map(|(id, v)| (id.0, *v));
+        if nth != Some(want[k]) || last != Some(want[n - 1]) {
+            return Err(Failure {
+                signature: "C19:iter-mismatch".into(),
+                detail: format!("{ctx}: nth({k}) = {nth:?}, last() = {last:?}, reference map holds {want:?}"),
+            });
+        }
+    }
+    let mut it = m.iter();
+    while it.next().is_some() {}
+    if it.next().is_some() || it.next().is_some() {
+        return Err(Failure {
+            signature: "C19:iter-mismatch".into(),
+            detail: format!("{ctx}: the exhausted iterator yields a pair again"),
+        });
+    }
     for (k, v) in model {
         if m.get(NameId(*k)) != Some(v) {
             return Err(Failure {
